@@ -217,6 +217,15 @@ class MiniEval(object):
             if isinstance(e, ast.Name):
                 raise Raised(e.id, ())
             raise Undecided("minieval: raise %s" % norm(e))
+        if isinstance(st, ast.With) and len(st.items) == 1 and st.items[0].optional_vars is None and isinstance(st.items[0].context_expr, ast.Call) \
+                and norm(st.items[0].context_expr.func) in ("contextlib.suppress", "suppress") and not st.items[0].context_expr.keywords:
+            names = [norm(a) for a in st.items[0].context_expr.args]
+            try:
+                self.block(st.body, env)
+            except Raised as r:
+                if not (r.typ in names or any(nm in EXC_BASES.get(r.typ, ()) for nm in names) or (r.typ not in EXC_BASES and ("Exception" in names or "BaseException" in names))):
+                    raise
+            return
         if isinstance(st, ast.Try):
             try:
                 try:
@@ -259,6 +268,17 @@ class MiniEval(object):
     def assign(self, t, v, env):
         if isinstance(t, ast.Name):
             env[t.id] = v
+        elif isinstance(t, (ast.Tuple, ast.List)) and sum(isinstance(x, ast.Starred) for x in t.elts) == 1:
+            vs = list(v)
+            k = [i for i, x in enumerate(t.elts) if isinstance(x, ast.Starred)][0]
+            after = len(t.elts) - k - 1
+            if len(vs) < len(t.elts) - 1:
+                raise Raised("ValueError", ("unpack",))
+            for a, b in zip(t.elts[:k], vs[:k]):
+                self.assign(a, b, env)
+            self.assign(t.elts[k].value, vs[k:len(vs) - after], env)
+            for a, b in zip(t.elts[k + 1:], vs[len(vs) - after:] if after else []):
+                self.assign(a, b, env)
         elif isinstance(t, (ast.Tuple, ast.List)):
             vs = list(v)
             if len(vs) != len(t.elts):
@@ -315,6 +335,8 @@ class MiniEval(object):
         if isinstance(e, ast.Name) and e.id in self.fi.module.assigns:
             sub = MiniEval(self.repo, self.folder, self.fi, self.symbolic, self.max_steps)
             return sub.ev(self.fi.module.assigns[e.id][-1], {})
+        if isinstance(e, ast.Name) and e.id in self.fi.module.funcs and not self.fi.module.funcs[e.id].is_lambda:
+            return ("<pkgfn>", self.fi.module.funcs[e.id])
         raise Undecided("minieval: %s is not a constant" % norm(e))
 
     def ev(self, e, env):
@@ -452,9 +474,34 @@ class MiniEval(object):
             if isinstance(v_, tuple) and v_ and v_[0] in ("<self>", "<sym>", "<exc>"):
                 return False
             return isinstance(v_, tuple(kinds[nm] for nm in names))
-        args = [self.ev(a, env) for a in e.args if not isinstance(a, ast.Starred)]
-        if any(isinstance(a, ast.Starred) for a in e.args):
-            raise Undecided("minieval: star arguments")
+        args = []
+        for a in e.args:
+            if isinstance(a, ast.Starred):
+                sv = self.ev(a.value, env)
+                if not isinstance(sv, (list, tuple, _types.GeneratorType)) or (isinstance(sv, tuple) and sv and isinstance(sv[0], str) and sv[0].startswith("<")):
+                    raise Undecided("minieval: star arguments")
+                args.extend(list(sv))
+            else:
+                args.append(self.ev(a, env))
+        # a function of the package held in a name (a table of checkers, a helper): evaluated in its own frame, with the same stand-ins
+        if isinstance(e.func, ast.Name) and fn not in self.stubs and fn not in self.stop_at and fn not in self.symbolic:
+            fv = env.get(e.func.id) if e.func.id in env else (("<pkgfn>", self.fi.module.funcs[e.func.id]) if e.func.id in self.fi.module.funcs else None)
+            if isinstance(fv, tuple) and len(fv) == 2 and fv[0] == "<pkgfn>":
+                kw = {k.arg: self.ev(k.value, env) for k in e.keywords if k.arg is not None}
+                if kw or any(k.arg is None for k in e.keywords):
+                    raise Undecided("minieval: keyword call of a package function")
+                self.depth = getattr(self, "depth", 0)
+                if self.depth > 6:
+                    raise Undecided("minieval: call depth")
+                sub = MiniEval(self.repo, self.folder, fv[1], self.symbolic, self.max_steps, stubs=self.stubs, stop_at=self.stop_at)
+                sub.depth = self.depth + 1
+                for nm in ("method_stubs", "symbolic_methods"):
+                    if hasattr(self, nm):
+                        setattr(sub, nm, getattr(self, nm))
+                r = sub.call(args)
+                if r[0] == "return":
+                    return r[1]
+                raise Raised(r[1], r[2])
         kwargs = {k.arg: self.ev(k.value, env) for k in e.keywords if k.arg is not None}
         if fn in self.stop_at:
             raise Stopped(fn, tuple(args), kwargs)
